@@ -151,7 +151,7 @@ PROPERTIES["C09"] = {
         {"mode": "own", "harness": "c09", "runs": {"quick": 15000, "thorough": 300000}, "share": 0.1},
         {"mode": "enum", "harness": "c09", "runs": {"quick": 2500, "thorough": 60000}, "share": 0.3},
     ],
-    "expected_probes": ["payload of 1 MiB or more read with the shipped 1 MiB buffer", "stream ends exactly on a 4096/5000/8192-byte boundary", "multi-stream file", "truncated file", "corrupted file", "truncation detected", "corruption detected", "enumerated fault points"],
+    "expected_probes": ["payload of 1 MiB or more read with the shipped 1 MiB buffer", "stream ends exactly on a 4096/5000/8192-byte boundary", "multi-stream file", "truncated file", "corrupted file", "truncation detected", "corruption detected", "enumerated fault points", "enumerated every truncation of a file decompressing to more than one 10240-byte output piece"],
     "components_real": ["GzipDecompressor, GzipBufferDecompressor, Bzip2Decompressor, Bzip2BufferDecompressor, GzipCompressor, Bzip2Compressor, CompressionFactory", "zlib and libbz2 (statically linked, unmodified)", "glibc stdio over a cookie stream"],
     "components_stubbed": ["open/read/write/close/dup/fsync/fstat/lseek on /sim/ paths (in-memory file system)", "payload streams are produced by the harness with zlib/libbz2 directly (reference compressor)"],
     "assumptions": ["single-threaded: the decompressor classes are driven directly, no scheduler decisions are involved", "the reference decompression is the identity on the generated payload (the harness compressed it itself)", "payload pieces of 1 MiB-1, 1 MiB, 1 MiB+1, 2 MiB+17 and 3 MiB are generated once in about 150 pieces (half of them read with the shipped 1 MiB buffer); all other pieces are below 200 KB and reach the buffer boundaries through hook H4 sizes"],
